@@ -338,7 +338,7 @@ pub fn drive(header: &str, run_fn: &str) {
             stats.exact_cases += 1;
         }
         // C06's open known finding: OBB-based algorithms when the inertia sums are inexact
-        let kf = if exact && rot.is_none() && !n.is_power_of_two() && stream != 2 { Some("obb-inexact-sums") } else { None };
+        let kf = if exact && rot.is_none() && !n.is_power_of_two() { Some("obb-inexact-sums") } else { None };
 
         let pts_coq: Vec<String> = pts.iter().map(|p| coq_bits(&p.iter().map(|c| c.to_bits()).collect::<Vec<_>>())).collect();
         let rot_coq = match &rot {
